@@ -22,10 +22,23 @@ fn set_by_name(
 
     let object = value_object.to_object(context)?;
 
+    // The cache is keyed by the shape of `object`, but with `super.x = v` the receiver (`this`) is
+    // another object. A cached *data* slot says where `object` (or its prototype) keeps the value,
+    // and that is only where `[[Set]]` writes when the receiver is `object` itself: for any other
+    // receiver the property is created or updated on the receiver (`ordinary_set` marks exactly this
+    // case NOT_CACHEABLE, but only for the call that fills the cache). Accessor slots do not depend
+    // on the receiver: the setter is called with it.
+    let receiver_is_object = receiver
+        .as_object()
+        .is_some_and(|receiver| crate::JsObject::equals(&receiver, &object));
+
     let ic = &context.vm.frame().code_block().ic[usize::from(index)];
 
     let object_borrowed = object.borrow();
-    if let Some((shape, slot)) = ic.get(object_borrowed.shape()) {
+    if let Some((shape, slot)) = ic
+        .get(object_borrowed.shape())
+        .filter(|(_, slot)| slot.attributes.is_accessor_descriptor() || receiver_is_object)
+    {
         let slot_index = slot.index as usize;
 
         if slot.attributes.is_accessor_descriptor() {
@@ -78,7 +91,10 @@ fn set_by_name(
 
     // Cache the property.
     let slot = *context.slot();
-    if succeeded && slot.is_cacheable() {
+    if succeeded
+        && slot.is_cacheable()
+        && (slot.attributes.is_accessor_descriptor() || receiver_is_object)
+    {
         let ic = &context.vm.frame().code_block.ic[usize::from(index)];
         let object_borrowed = object.borrow();
         let shape = object_borrowed.shape();
